@@ -191,12 +191,17 @@ def file_level(chk):
         obs = {'two_loads_equal': bool(fa1 == fa2) and not bool(fa1 != fa2) and bool(f_same1 == f_same2),
                'hash_equal': hash(fa1) == hash(fa2),
                'event_differs_unequal': bool(f_same1 != f_event) and not bool(f_same1 == f_event),
-               'smallest_event_difference_unequal': (not differs) or (bool(f_same1 != f_min) and not bool(f_same1 == f_min)),
+               'smallest_event_difference_unequal': differs and bool(f_same1 != f_min) and not bool(f_same1 == f_min),
                'keyword_differs_unequal': bool(f_same1 != f_kw) and not bool(f_same1 == f_kw),
                'fcsdata_loads_equal': hr.fingerprint(da1) == hr.fingerprint(da2),
                'loads_through_one_open_handle_equal': same_handle == 'ok'}
-        if not differs:
-            raise tlc.MachineryError('C20 file level: the minimally changed file %s reads back the same events' % tag)
+        # the first load still holds the events of the file it was loaded from (the path was rewritten four times since)
+        first = np.asarray(f_same1.data, dtype=np.float64)
+        wrote = np.asarray(ev, dtype=np.float64)
+        obs['first_load_unchanged_by_later_rewrites_of_the_path'] = bool(first.shape == wrote.shape and np.array_equal(
+            first.astype(np.float32 if dt == 'F' else np.float64), wrote.astype(np.float32 if dt == 'F' else np.float64), equal_nan=True))
+        if open(a, 'rb').read() == open(bm, 'rb').read():
+            raise tlc.MachineryError('C20 file level: the minimally changed file %s has the same bytes' % tag)
         if same_handle != 'ok':
             obs['one_handle_detail'] = same_handle
         chk.case(('file', tag), nontrivial=True, sample={'file_level': tag, 'observed': obs})
